@@ -316,6 +316,9 @@ def count_sweeps(rs, fn, blk_id):
 def run(ck):
   from pymtl3.dsl.errors import UpblkCyclicError
   rng = ck.rng
+  # self-contained family with its own PRNG, run FIRST: a wrapper the text parsers below cannot read stops the main stream, the
+  # direct oracle of this family must still get its chance to find the concrete failing design (ck.rng is left untouched)
+  _st = rng.getstate(); c11_openloop.run_hostosc(ck); rng.setstate(_st)
   n = 250 if ck.tier == 'quick' else 8000
   lines, meta = [], []
   wrappers = c11_openloop.WrapperChecks(ck)
@@ -450,6 +453,6 @@ def run(ck):
 def replay(ck, data):
   if (data.get('case') or {}).get('pass') in ('Mamba2020', 'HeuTopoUnrollSim'): return c01_mamba.replay(ck, data)
   if (data.get('case') or {}).get('scc'): return c11_scc.replay(ck, data)
-  if (data.get('case') or {}).get('openloop') or (data.get('case') or {}).get('openloop_gap') or (data.get('case') or {}).get('openloop_greenlet'): return c11_openloop.replay(ck, data)
+  if (data.get('case') or {}).get('openloop') or (data.get('case') or {}).get('openloop_gap') or (data.get('case') or {}).get('openloop_greenlet') or (data.get('case') or {}).get('openloop_hostosc'): return c11_openloop.replay(ck, data)
   print(data.get('kind'), data.get('signature')); print(str(data.get('detail'))[:1500])
   return rtlgen.replay_source(ck, data.get('case') or {})
